@@ -5,14 +5,19 @@
 (* requested output, keyword set, calling convention, with and without an active construct_dag():          *)
 (* sequences  Build ; Evaluate ; Evaluate ... (MaxEv evaluates), up to MaxHandles such sequences inside one  *)
 (* construct_dag() block.  Deadlock checking is ON: a handle can                                            *)
-(* always be built or refused, and a started evaluate() can always complete.                               *)
+(* always be built or refused, and a started evaluate() can always complete or raise.                      *)
+(* FaultsOn: every description also with a fault plan on its user functions (one function raising once /   *)
+(* always, all raising once), evaluate() calls that raise followed by further evaluate() calls; the eager  *)
+(* twin's calls under the same plans are explored by EBSpec.                                               *)
 (* Part 1 exports every description with its valid cuts for the harness (c18.py).                          *)
 EXTENDS PipelineLazy, MC_PipelineCall
 CONSTANTS MaxEv,     \* number of evaluate() calls per handle (2: Evaluate ; ReEvaluate)
           AllKw,     \* TRUE: every keyword subset (valid cuts, surplus, missing); FALSE: valid cuts only
           MaxHandles,\* handles built one after the other inside one construct_dag() block (1: no sharing)
           Modes,     \* calling conventions explored: subset of {"call", "full"}
-          UserCacheOn \* TRUE: every description also as a pipeline with a user cache (first / all functions cached; the flag does not restrict reuse)
+          UserCacheOn, \* TRUE: every description also as a pipeline with a user cache (first / all functions cached; the flag does not restrict reuse)
+          FaultsOn,  \* TRUE: every description also with fault plans (FaultChoice)
+          MaxFailEv  \* evaluate() calls per handle that raise (the model's bound on retries under a persistent fault)
 
 ---------------------------------------------------------------------------
 (* Part 1: export.  One state per description. *)
@@ -22,7 +27,16 @@ DescHash(dd) == Len(dd.funcs[1].params) + 3 * Len(dd.funcs[2].params) + Len(dd.f
 WithCache(dd, S) == IF S = {} THEN dd
                     ELSE [funcs |-> [i \in FIdx(dd) |-> [dd.funcs[i] EXCEPT !.cache = (i \in S)]], cache_type |-> "simple"]
 CacheChoice(dd)  == IF UserCacheOn THEN {{1}, FIdx(dd)} ELSE {{}}
-LUInit == \E dd \in {x \in Universe : Valid(x) /\ DescHash(x) % NShards = Shard} : \E S \in CacheChoice(dd) : LazyInit(WithCache(dd, S))
+(* fault plans: none; one function raising on its first invocation only (transient) / on every invocation (persistent); *)
+(* every function raising on its first invocation                                                                        *)
+One(dd, i, k)    == [j \in FIdx(dd) |-> IF j = i THEN k ELSE 0]
+FaultChoice(dd)  == IF FaultsOn THEN {Zero(dd), [j \in FIdx(dd) |-> 1]} \cup {One(dd, i, k) : i \in FIdx(dd), k \in {1, -1}}
+                    ELSE {Zero(dd)}
+WithFaults(dd, F) == IF F = Zero(dd) THEN dd
+                     ELSE IF "cache_type" \in DOMAIN dd THEN [funcs |-> dd.funcs, cache_type |-> dd.cache_type, faults |-> F]
+                     ELSE [funcs |-> dd.funcs, faults |-> F]
+LUInit == \E dd \in {x \in Universe : Valid(x) /\ DescHash(x) % NShards = Shard} : \E S \in CacheChoice(dd) :
+              \E F \in FaultChoice(dd) : LazyInit(WithFaults(WithCache(dd, S), F))
 LUNext == UNCHANGED allvars
 LUSpec == LUInit /\ [][LUNext]_allvars
 LEmit  == PrintT(<<"CASE", ToJson([desc |-> d,
@@ -43,11 +57,19 @@ ClearCache == /\ ~lazy /\ phase = "idle" /\ nh = 0 /\ memo # {}
               /\ memo' = {}
               /\ UNCHANGED <<cvars, lazy, dag, nev, count, val, graph, nh>>
 RefHit == MayBeOld(d, kw, out, memo)
+(* the eager twin under its fault plan (valid cuts): begin ; invocations that complete / one that raises ; return / raise *)
+EagerNext == \/ (phase = "idle" /\ ~lazy /\ nh = 0 /\ \E o \in AllOutputs(d) : \E C \in Cuts(d, o) : \E m \in Modes :
+                       Eager(Begin(o, KwOf(C), m)))
+             \/ (phase = "running" /\ ~lazy /\ \E i \in FIdx(d) : ECall(i, ArgsOf(d, kw, i)) \/ ECallFail(i, ArgsOf(d, kw, i)))
+             \/ (phase = "running" /\ ~lazy /\ (Eager(Return(Eval(d, kw, out))) \/ Eager(ReturnFull(FullValue(d, kw, out)))))
+             \/ (phase = "failed" /\ ~lazy /\ ERaise(bad))
 LNext == \/ (phase = "idle" /\ Cardinality(memo) <= NF(d) /\ \E o \in AllOutputs(d) : \E C \in KwSets(o) : \E m \in Modes, g \in BOOLEAN :
                                   LBegin(o, KwOf(C), m, g))
          \/ Build \/ BuildRaiseUnused \/ BuildRaiseMissing \/ BuildRaiseOutputSupplied
-         \/ EvalBegin
+         \/ ((nfe < MaxFailEv \/ \A i \in Needed(d, kw, out) \ done : ~Fails(flt, i)) /\ EvalBegin)
          \/ (phase = "running" /\ \E i \in FIdx(d) : LCall(i, ArgsOf(d, kw, i)))
+         \/ (phase = "running" /\ nfe < MaxFailEv /\ \E i \in FIdx(d) : LCallFail(i, ArgsOf(d, kw, i)))
+         \/ (phase = "failed" /\ EvalRaise(bad))
          \/ EvalReturn(Eval(d, kw, out))
          \/ EvalReturnFull(FullValue(d, kw, out))
          \/ (nev < MaxEv /\ (ReEvaluate(Eval(d, kw, out)) \/ ReEvaluateFull(FullValue(d, kw, out))))
@@ -57,6 +79,9 @@ LNext == \/ (phase = "idle" /\ Cardinality(memo) <= NF(d) /\ \E o \in AllOutputs
          \/ (nh + 1 < MaxHandles /\ LDropKeep)
          \/ CloseBlock
 LBSpec == LUInit /\ [][LNext]_allvars
+(* the eager twin alone (its fault plan is independent of the lazy pipeline's: exploring the two in one state space would *)
+(* only multiply them)                                                                                                   *)
+EBSpec == LUInit /\ [][EagerNext]_allvars
 
 InvNothingBeforeEvaluate == NothingBeforeEvaluate
 InvAtMostOncePerNode     == AtMostOncePerNode
@@ -65,6 +90,22 @@ InvCountIsDone           == CountIsDone
 InvValueIsEval           == ValueIsEval
 InvGraphIsOK             == GraphIsOK
 InvLazyTypeOK            == LazyTypeOK
+InvFailuresAccounted     == FailuresAccounted
+InvNoValueFromFailure    == NoValueFromFailure
+(* once an invocation raised, the evaluate() it was made for invokes nothing more and cannot return a value *)
+InvFailedEvaluateOnlyRaises == phase = "failed" =>
+                                  /\ \A i \in FIdx(d) : ~ENABLED LCall(i, ArgsOf(d, kw, i)) /\ ~ENABLED LCallFail(i, ArgsOf(d, kw, i))
+                                  /\ ~ENABLED EvalReturn(Eval(d, kw, out)) /\ ~ENABLED EvalReturnFull(FullValue(d, kw, out))
+(* a handle whose evaluate() raised is not "evaluated": no value can be had from it without the invocations that are still *)
+(* owed (ReEvaluate is disabled, and EvalReturn only after them), and a further evaluate() can be started                   *)
+InvRetryIsAFirstEvaluate == (lazy /\ phase = "built" /\ nev = 0 /\ nfe > 0 /\ memo = {}) =>
+                                  /\ ~ENABLED ReEvaluate(Eval(d, kw, out)) /\ ~ENABLED ReEvaluateFull(FullValue(d, kw, out))
+                                  /\ ENABLED EvalBegin
+                                  /\ \E i \in MustRun : i \notin done
+(* the eager twin returns a value only when no needed function is (still) faulty, exactly the condition under which the   *)
+(* handle's evaluate() can return (NoValueFromFailure): the two agree on raise / return attempt by attempt                 *)
+InvEagerReturnNoFault    == (~lazy /\ phase = "running" /\ (ENABLED Return(Eval(d, kw, out)) \/ ENABLED ReturnFull(FullValue(d, kw, out))))
+                                  => \A i \in Needed(d, kw, out) : eflt[i] = 0
 InvLDoneOnlyNeeded       == (lazy /\ phase \in {"built", "running"}) => done \subseteq Needed(d, kw, out)
 (* once evaluated, no invocation is possible any more, whatever the phase *)
 InvNoCallAfterEvaluate   == (lazy /\ nev >= 1) => \A i \in FIdx(d) : ~ENABLED LCall(i, ArgsOf(d, kw, i))
